@@ -268,8 +268,8 @@ func (q *RecQueue) rec(op string, item any, d time.Duration) {
 	q.Calls = append(q.Calls, QueueCall{Op: op, Key: fmt.Sprint(item), Delay: d})
 	q.mu.Unlock()
 }
-func (q *RecQueue) Add(item any)                              { q.rec("Add", item, 0) }
-func (q *RecQueue) Len() int                                  { return 0 }
+func (q *RecQueue) Add(item any) { q.rec("Add", item, 0) }
+func (q *RecQueue) Len() int     { return 0 }
 func (q *RecQueue) Get() (any, bool) {
 	q.mu.Lock()
 	defer q.mu.Unlock()
